@@ -109,7 +109,10 @@ func c15Run(c c15Case) (opts []ndp.Option, err error, panicked any) {
 	}
 	var in []system.Route
 	for i, r := range c.Routes {
-		in = append(in, system.Route{Prefix: netip.MustParsePrefix(r.Prefix), Index: 1 + i%2})
+		// The kernel's own per-route preference varies; the statement says every
+		// advertised route carries the STANZA's preference.
+		kp := []ndp.Preference{ndp.Medium, ndp.High, ndp.Low}[i%3]
+		in = append(in, system.Route{Prefix: netip.MustParsePrefix(r.Prefix), Index: 1 + i%2, Preference: kp})
 	}
 	p.Routes = func() ([]system.Route, error) {
 		if c.Fail {
